@@ -2,4 +2,5 @@
 # Run every registered quick check (with the baseline guard), 5 at a time; evidence files are rewritten.
 cd "$(dirname "$0")/.."; L=${RUNALL_LOG:-/tmp/runall}; mkdir -p $L
 TIER=${1:-quick}
+./setup.sh >/dev/null 2>&1
 for i in $(seq -w 1 20); do echo C$i; done | xargs -P 5 -I{} bash -c 'S=$(date +%s); VERIF_JOBS=8 ./check {} --tier '$TIER' > '$L'/{}.log 2>&1; echo "{} rc=$? $(( $(date +%s)-S ))s $(grep -E "^# " '$L'/{}.log | cut -c1-150)"; grep -E "^VIOLATION|^CHECKER" '$L'/{}.log | head -3'
